@@ -218,6 +218,76 @@ def run(ctx):
         import shutil
 
         shutil.rmtree(tmpdir, ignore_errors=True)
+    # ---- beyond what TLC is handed: file objects with their own idea of seek(), and ArtifactKit files above 128 KiB
+    from dissect.cobaltstrike import xordecode
+    from vt.ref import xorenc
+
+    def occurrences(hay, needle, start=0):
+        out, i = [], hay.find(needle, start)
+        while i != -1:
+            out.append(i)
+            i = hay.find(needle, i + 1)
+        return out
+
+    class OddSeek(io.BytesIO):
+        """a file object whose seek() returns nothing useful (the scanner may only rely on tell())"""
+
+        def seek(self, *a):
+            super().seek(*a)
+            return None
+
+    class OffsetSeek(io.BytesIO):
+        def seek(self, *a):
+            return super().seek(*a) + 12345
+
+    for rep in range(3 if ctx.quick else 30):
+        needle = rng.choice([b"\x00\x01\x00\x01\x00\x02", b"MZ", b"\xff\xff\xff", bytes(rng.randrange(256) for _ in range(rng.randrange(1, 9)))])
+        hay = bytearray(rng.randrange(256) for _ in range(rng.choice([20000, 30000])))
+        for pos in (0, 5, 100, 4000, 8192 - len(needle) + 1, 8192, 9000, 16384 - 1, len(hay) - len(needle)):
+            hay[pos : pos + len(needle)] = needle
+        hay = bytes(hay)
+        nonce = bytes(rng.randrange(1, 255) for _ in range(4))
+        stub = b"\x90" * rng.choice([0, 5, 61])
+        for name, mk in (("OddSeek", lambda: OddSeek(hay)), ("OffsetSeek", lambda: OffsetSeek(hay)),
+                         ("XorEncodedFile", lambda: xordecode.XorEncodedFile(io.BytesIO(xorenc.stage(stub, nonce, hay)), nonce_offset=len(stub)))):
+            for start in (0, 3, None):
+                def go():
+                    fh = mk()
+                    if start is None:
+                        fh.seek(7)
+                    return list(utils.iter_find_needle(fh, needle, start_offset=start))
+                o = core.guarded(go, seconds=60)
+                ctx.evaluations += 1
+                want = occurrences(hay, needle, 7 if start is None else start)
+                if o != ("ok", want):
+                    ctx.violation("iter_find_needle on a file object with its own seek() semantics disagrees with the occurrences", {"op": "iter_find_needle", "failed": "file_object_" + name},
+                                  {"needle": L(needle), "start": start, "got": str(o[1])[:200], "expected": want[:20]})
+        ctx.count_distinct(("fileobj", rep))
+    for rep in range(1 if ctx.quick else 6):
+        size = 200000 + rep * 4099
+        f = bytearray(size)
+        planted = [100, 5000, 131056, 131058, 196593, 196595, 150000, size - 20, size - 4]
+        for pos in planted:
+            f[pos : pos + 4] = struct.pack("<I", pos + 16)
+        for pos in (100, 5000, 150000):
+            f[pos + 4 : pos + 8] = struct.pack("<I", rng.choice([0, 3, 64]))
+            f[pos + 8 : pos + 12] = bytes(rng.randrange(256) for _ in range(4))
+        f = bytes(f)
+        want = [p_ for p_ in range(0, size - 3) if struct.unpack_from("<I", f, p_)[0] == p_ + 16]
+        for start, mr in ((0, None), (131000, 131100), (131057, None), (None, None)):
+            o = core.guarded(lambda: [(p_.offset, p_.size, bytes(p_.xorkey), bytes(p_.payload)[:8]) for p_ in artifact.iter_artifactkit_payloads(io.BytesIO(f), start_offset=start, maxrange=mr)], seconds=300)
+            ctx.evaluations += 1
+            exp_off = [p_ for p_ in want if p_ >= (start or 0) and (mr is None or p_ <= mr)]
+            got_off = [x[0] for x in o[1]] if o[0] == "ok" else None
+            if got_off != exp_off:
+                ctx.violation("iter_artifactkit_payloads misses or invents headers in a large file", {"op": "iter_artifactkit_payloads", "failed": "large_file_offsets"},
+                              {"size": size, "start": start, "maxrange": mr, "got": str(got_off)[:200], "expected": exp_off})
+            elif o[0] == "ok":
+                for off, sz, key, head in o[1]:
+                    esz = struct.unpack_from("<I", f.ljust(off + 8, b"\x00"), off + 4)[0] if off + 8 <= size else None
+                    if esz is not None and off + 12 <= size and (sz != esz or key != f[off + 8 : off + 12]):
+                        ctx.violation("iter_artifactkit_payloads reports other header fields than the file holds", {"op": "iter_artifactkit_payloads", "failed": "large_file_fields"}, {"offset": off, "size": sz})
+        ctx.count_distinct(("ak_large", size))
     # canary: a real event with one reported offset shifted by one must be rejected
     canary = next((dict(e, out=[e["out"][0] + 1] + e["out"][1:]) for e in recs if e["op"] == "scan" and e["out"]), None)
     bad = core.tlc_judge(ctx, "ScanIO", ioc, recs, canary=canary)
